@@ -13,6 +13,7 @@ import (
 	"sort"
 	"strings"
 	"sync"
+	"sync/atomic"
 	"time"
 
 	"github.com/ddddddO/gtree"
@@ -94,16 +95,29 @@ func buildItems(items []wproto.Item) *gtree.Node {
 var errReader = errors.New("verif: injected reader failure")
 var errWriter = errors.New("verif: injected writer failure")
 
+// wrapErr gives the injected failure another identity as well: a reader or writer whose own error wraps a
+// context error (an HTTP body whose request timed out) is still a failing reader or writer
+func wrapErr(base error, kind string) error {
+	switch kind {
+	case "canceled":
+		return fmt.Errorf("%w (%w)", base, context.Canceled)
+	case "deadline":
+		return fmt.Errorf("%w (%w)", base, context.DeadlineExceeded)
+	}
+	return base
+}
+
 // failReader delivers the first n bytes of s (in small reads) and then fails.
 type failReader struct {
 	s string
 	n int
 	i int
+	e error
 }
 
 func (f *failReader) Read(p []byte) (int, error) {
 	if f.i >= f.n {
-		return 0, errReader
+		return 0, f.e
 	}
 	k := copy(p, f.s[f.i:f.n])
 	f.i += k
@@ -119,6 +133,7 @@ type faultWriter struct {
 	calls   int
 	refused bool
 	sizes   []int
+	e       error
 }
 
 func (w *faultWriter) Write(p []byte) (int, error) {
@@ -135,9 +150,14 @@ func (w *faultWriter) Write(p []byte) (int, error) {
 		if strings.HasPrefix(w.fault.How, "short") && w.calls == w.fault.At {
 			n := len(p) / 2
 			w.buf.Write(p[:n])
-			return n, errWriter
+			return n, w.e
 		}
-		return 0, errWriter
+		if strings.HasPrefix(w.fault.How, "full") {
+			// every byte is taken and the call fails all the same (a log sink that lost its connection after buffering)
+			w.buf.Write(p)
+			return len(p), w.e
+		}
+		return 0, w.e
 	}
 	return w.buf.Write(p)
 }
@@ -151,6 +171,9 @@ type yieldReader struct {
 	cancelAt int // -1: never
 	cancel   func()
 	yield    int
+	e        error
+	returned atomic.Bool  // the call under test has returned
+	after    atomic.Int64 // Read calls that began after that
 }
 
 func yieldNow(y int) {
@@ -163,6 +186,9 @@ func yieldNow(y int) {
 }
 
 func (f *yieldReader) Read(p []byte) (int, error) {
+	if f.returned.Load() {
+		f.after.Add(1)
+	}
 	yieldNow(f.yield)
 	limit := len(f.s)
 	if f.failAt >= 0 && f.failAt < limit {
@@ -174,7 +200,7 @@ func (f *yieldReader) Read(p []byte) (int, error) {
 	}
 	if f.i >= limit {
 		if f.failAt >= 0 {
-			return 0, errReader
+			return 0, f.e
 		}
 		return 0, io.EOF
 	}
@@ -216,7 +242,7 @@ func nthNode(root *gtree.Node, k int, items []wproto.Item) *gtree.Node {
 
 func handleReq(rq wproto.Req) (rp wproto.Rep) {
 	var buf bytes.Buffer
-	fw := &faultWriter{buf: &buf, fault: rq.WFault, yield: rq.Yield}
+	fw := &faultWriter{buf: &buf, fault: rq.WFault, yield: rq.Yield, e: wrapErr(errWriter, rq.ErrWrap)}
 	color.Output = fw
 	opts := reqOpts(rq)
 	if rq.Procs > 0 {
@@ -275,6 +301,7 @@ func handleReq(rq wproto.Req) (rp wproto.Rep) {
 		}
 		return nil
 	}
+	var theReader *yieldReader
 	var before map[string]string
 	if rq.Leaks || rq.Record || rq.Delays != 0 || len(rq.Plan) > 0 {
 		before = real.GtreeGoroutines()
@@ -302,6 +329,11 @@ func handleReq(rq wproto.Req) (rp wproto.Rep) {
 					}
 				case "massive-output":
 					gtree.OutputFromRoot(io.Discard, root, gtree.WithMassive(context.Background()))
+				case "mkdir-elsewhere":
+					if tmp, err := os.MkdirTemp("", "verif-premk-"); err == nil {
+						gtree.MkdirFromRoot(root, gtree.WithTargetDir(tmp))
+						os.RemoveAll(tmp)
+					}
 				}
 			}
 			if rq.NodeIdx != 0 {
@@ -329,9 +361,9 @@ func handleReq(rq wproto.Req) (rp wproto.Rep) {
 		}
 		var r io.Reader = strings.NewReader(rq.Doc)
 		if rq.ReadFail != nil && rq.Yield == 0 && rq.CancelAt == nil {
-			r = &failReader{s: rq.Doc, n: *rq.ReadFail}
+			r = &failReader{s: rq.Doc, n: *rq.ReadFail, e: wrapErr(errReader, rq.ErrWrap)}
 		} else if rq.ReadFail != nil || rq.Yield > 0 || (rq.CancelAt != nil && *rq.CancelAt >= 0) {
-			yr := &yieldReader{s: rq.Doc, failAt: -1, cancelAt: -1, cancel: cancelUser, yield: rq.Yield}
+			yr := &yieldReader{s: rq.Doc, failAt: -1, cancelAt: -1, cancel: cancelUser, yield: rq.Yield, e: wrapErr(errReader, rq.ErrWrap)}
 			if rq.ReadFail != nil {
 				yr.failAt = *rq.ReadFail
 			}
@@ -339,6 +371,7 @@ func handleReq(rq wproto.Req) (rp wproto.Rep) {
 				yr.cancelAt = *rq.CancelAt
 			}
 			r = yr
+			theReader = yr
 		}
 		switch {
 		case rq.Op == "output" && rq.Alias:
@@ -379,10 +412,20 @@ func handleReq(rq wproto.Req) (rp wproto.Rep) {
 		rp.Entries = snapshot(jail)
 	}
 	hc.release()
+	if theReader != nil {
+		theReader.returned.Store(true)
+	}
 	if rq.Leaks && rp.Class != "hang" {
-		leaks := real.SettledLeaks(before, 150*time.Millisecond)
-		rp.Leaked, rp.LeakSigs = len(leaks), leaks
-		hc.log("settled", fmt.Sprint(len(leaks)))
+		leaks, unsettled := real.SettledLeaks(before, 150*time.Millisecond, 20*time.Second)
+		if unsettled {
+			rp.Unsettled = true
+		} else {
+			rp.Leaked, rp.LeakSigs = len(leaks), leaks
+		}
+		hc.log("settled", fmt.Sprint(rp.Leaked))
+		if theReader != nil {
+			rp.ReadsAfter = int(theReader.after.Load())
+		}
 	}
 	hc.mu.Lock()
 	rp.Events, rp.Unforced, rp.PlanDone = append([]wproto.Event{}, hc.events...), hc.unforced, hc.planIdx
@@ -392,7 +435,7 @@ func handleReq(rq wproto.Req) (rp wproto.Rep) {
 		// the next request's recording
 		hc.release()
 		if !rq.Leaks {
-			real.SettledLeaks(before, 300*time.Millisecond)
+			real.SettledLeaks(before, 300*time.Millisecond, 5*time.Second)
 		}
 	}
 	return rp
